@@ -173,6 +173,7 @@ struct State {
     std::map<uint64_t, EhHeader> eh_hdr;
     std::map<uint64_t, EhObj> eh_obj;
     std::map<uint64_t, int> mutex_owner;  // mutex addr -> tid+1
+    std::map<uint64_t, int> mutex_count;  // recursion depth
     uint64_t steps = 0;
     uint64_t dhash = 1469598103934665603ULL;
     uint32_t depth = 0;
@@ -329,6 +330,7 @@ struct Engine {
             sv.set(p);
             for (auto &e : rel) sv.add(e);
             sv.add(extra);
+            if (const char *dq = getenv("SYMX_DUMP")) if ((uint64_t)atoll(dq) == queries) { std::cerr << sv.to_smt2() << std::endl; }
             z3::check_result r = sv.check();
             res = r == z3::sat ? 1 : (r == z3::unsat ? 0 : -1);
             QCache qc;
@@ -1252,6 +1254,7 @@ struct Engine {
             auto it = S.mutex_owner.find(T.wait_mutex);
             if (it != S.mutex_owner.end() && it->second != 0) { T.status = TH_BLOCK_MUTEX; T.wait_obj = T.wait_mutex; T.wait_mutex = 0; T.reacquire = true; return; }
             S.mutex_owner[T.wait_mutex] = tid + 1;
+            S.mutex_count[T.wait_mutex] = 1;
             T.wait_mutex = 0;
         }
     }
